@@ -11,6 +11,30 @@ import (
 
 // ---------------------------------------------------------------- results
 
+// readsAlias: the statement mentions a variable that aliases e.currDBCMsg
+func (t *xptr) readsAlias(s ast.Stmt) bool {
+	res := false
+	ast.Inspect(s, func(n ast.Node) bool {
+		if id, ok := n.(*ast.Ident); ok {
+			if v := t.vars[t.info.Uses[id]]; v != nil && v.alias {
+				res = true
+			}
+		}
+		return true
+	})
+	return res
+}
+
+// isFile: the expression `e.dbcFile`
+func (t *xptr) isFile(e ast.Expr) bool {
+	s, ok := e.(*ast.SelectorExpr)
+	if !ok || s.Sel.Name != "dbcFile" {
+		return false
+	}
+	id, ok := s.X.(*ast.Ident)
+	return ok && t.isRecv(id)
+}
+
 // resultNames: what the current function returns besides its Go results
 func (t *xptr) extraResults() []string {
 	var res []string
@@ -164,6 +188,28 @@ func (t *xptr) block(list []ast.Stmt, lc *xpLoop, k xpK) []string {
 		line := "let " + xv.lean + " := " + xpParenIf(lt) + ".map (fun " + vv.lean + " => " + t.expr(e) + ")"
 		return append([]string{line}, t.block(list[2:], lc, k)...)
 	}
+	// x := make([]T, 0, len(m)); for _, v := range m { x = append(x, v) }; slices.SortFunc(x, cmp)
+	if x, m, ok := t.sortedValuesAt(list, 0); ok {
+		p, ok := t.recvPath(m)
+		if !ok || t.cur.usesSort == "" || lc != nil {
+			t.fail(s, "the sorted values of %s", exprStr(m))
+		}
+		xv := t.declare(x, "")
+		line := "let " + xv.lean + " := sortEnums (mapValues " + p + ")"
+		return append([]string{line}, t.block(list[3:], lc, k)...)
+	}
+	// the message e.currDBCMsg points to may be read as a value only when the walk of its signals is
+	// over: as the last statement of the function (otherwise later appends to its Signals are lost)
+	if t.readsAlias(s) {
+		for _, r := range list[1:] {
+			if !t.sliced(r) {
+				t.fail(s, "the message that e.currDBCMsg points to is used before the end of the function (aliasing)")
+			}
+		}
+		if lc != nil {
+			t.fail(s, "the message that e.currDBCMsg points to is used inside a loop (aliasing)")
+		}
+	}
 	switch x := s.(type) {
 	case *ast.AssignStmt:
 		return append(t.assign(x), rest()...)
@@ -182,6 +228,9 @@ func (t *xptr) block(list []ast.Stmt, lc *xpLoop, k xpK) []string {
 		}
 		var vals []string
 		for _, r := range x.Results {
+			if t.isFile(r) { // `return e.dbcFile`: the file is the state
+				continue
+			}
 			vals = append(vals, t.expr(r))
 		}
 		return t.retLines(vals)
@@ -496,6 +545,19 @@ func (t *xptr) assign(x *ast.AssignStmt) []string {
 			line := "let st := { st with curSignals := " + v.lean + ".signals }"
 			v.alias = true
 			return []string{line}
+		}
+		// e.dbcFile.Nodes = p
+		if t.isFile(l.X) {
+			if f, ok := xpFilePtrFields[l.Sel.Name]; ok {
+				id, ok := rhs.(*ast.Ident)
+				if !ok || t.dbcStruct(t.info.TypeOf(id)) == nil {
+					t.fail(x, "e.dbcFile.%s is assigned something that is not a variable", l.Sel.Name)
+				}
+				v := t.varOf(id)
+				line := "let st := { st with " + f + " := some " + v.lean + " }"
+				v.escaped = true
+				return []string{line}
+			}
 		}
 		// e.dbcFile.X = append(e.dbcFile.X, v) / e.currDBCMsg.Signals = append(..)
 		if p, ok := t.recvPath(l); ok {
@@ -822,6 +884,9 @@ func (t *xptr) function(n string) {
 	if s.usesClr {
 		params = append(params, "(clr : String → String)")
 	}
+	if s.usesSort != "" {
+		params = append(params, "(sortEnums : List "+xpParen(s.usesSort)+" → List "+xpParen(s.usesSort)+")")
+	}
 	hasMsg := false
 	for _, f := range fd.Type.Params.List {
 		if t.typeName(t.info.TypeOf(f.Type)) == "*Message" {
@@ -857,6 +922,9 @@ func (t *xptr) function(n string) {
 				k = 1
 			}
 			for i := 0; i < k; i++ {
+				if t.typeName(t.info.TypeOf(f.Type)) == "*dbc.File" {
+					continue // the file is the state
+				}
 				rtypes = append(rtypes, t.leanType(t.info.TypeOf(f.Type), f))
 			}
 		}
